@@ -67,6 +67,7 @@ def cases_for(prop, tier, seed):
     if prop == "C03":
         combs = ("merge", "concat", "zip", "amb", "take_until", "skip_until", "sample", "switch_on_next", "combine_latest", "sequence_equal", "flat_map")
         return (gen.fam_combinators(g, "C03-comb", 60 * k) + gen.fam_hot(g, "C03-hot", 200 * k, depth=(1, 3)) +
+                gen.fam_ready_set_go(g, "C03-rsg", 0) +
                 # callbacks that push into / complete one of the combined hot sources
                 [c for c in gen.fam_reentrant(g, "C03-re", 0) if any("(sub (%s " % op in c for op in combs)])
     if prop == "C04":
